@@ -533,7 +533,49 @@ def check_C09(chk, tier):
     run_phase(chk, "store-monitor/gssvx", H + "h_gssvx.c", xc, ["C09."], prec="d", budget_s=120, monitor_ids=("global_stores",), validate_samples=0, bounds="expert-driver histories under the store monitor")
 
 
-REGISTRY = {"C09": check_C09, "C19": check_C19, "C20": check_C20, "C07": check_C07, "C14": check_C14, "C10": check_C10, "C08": check_C08, "C18": check_C18, "C05": check_C05, "C06": check_C06, "C01": check_C01, "C02": check_C02, "C03": check_C03, "C04": check_C04}
+# ------------------------------------------------------------------------------------------------ C11 equilibration
+def check_C11(chk, tier):
+    chk.assumptions += COMMON_ASSUME + ["entries range over the whole finite range of the precision with x == 0 or |x| >= min subnormal; smlnum/bignum/small/large are the exact rationals the library's ?mach returns",
+                                        "layer X: 'equal to one up to rounding' is checked as R_i * clamp(rowmax_i) == 1 exactly; overflow of products in the true format is not modelled (DESIGN 5)"]
+    q = tier == "quick"
+    for prec in (["d", "z"] if q else list("dszc")):
+        cplx = prec in "zc"; cs = []
+        for m, n in ((1, 1), (1, 2), (2, 1), (2, 2)) + (() if q and cplx else ((2, 3), (3, 2)) if q else ((2, 3), (3, 2), (3, 3))):
+            pats = C.all_patterns(m, n) if m * n <= 4 else [p for p in C.all_patterns(m, n) if bin(p).count("1") in (m * n, m * n - 1, 3, 2)][:: (3 if q else 1)]
+            for pat in pats:
+                full = bin(pat).count("1") <= (2 if not cplx else 1)
+                if full: cs.append((m, n, hex(pat), -1))
+                for sc in range(n): cs.append((m, n, hex(pat), 1 << sc))
+        run_phase(chk, "gsequ+laqgs/" + prec, H + "h_equil.c", list(dict.fromkeys(cs)), ["C11."], prec=prec, budget_s=200 if q else 1500, validate_samples=2,
+                  bounds="m x n <= 3x3: all patterns up to 2x2, selected 3x3; fully symbolic up to 2 stored entries, otherwise one symbolic column (rest generic concrete); empty rows/columns at every position",
+                  qtimeout_ms=5000 if q else 60000, env=CPLX_ENV if cplx else None)
+
+
+# ------------------------------------------------------------------------------------------------ C12 condition estimate / growth
+def check_C12(chk, tier):
+    chk.assumptions += COMMON_ASSUME + ["true condition number: adjugate/determinant of the factored (equilibrated) matrix formed in the harness, n <= 3, real precisions; complex norms use sqrt(re^2+im^2) and are not given the true-value oracle (only rcond <= 1, the warning rule and the growth factor)",
+                                        "most cases use a generic concrete matrix with symbolic right-hand sides (single estimator path); fully/partly symbolic matrices at n = 2"]
+    q = tier == "quick"
+    for prec in (["d", "z"] if q else list("dszc")):
+        cplx = prec in "zc"; cs = []
+        for st in (0, 1):
+            for tr in (1, 2):
+                for eq in (0, 1):
+                    for n, pat in ((1, 1), (2, 15), (3, 511), (3, 0b110111011), (3, 0b111011101)):
+                        if cplx and n == 3 and q and pat != 511: continue
+                        cs.append(xcase(n, pat, storage=st, trans=tr, equil=eq, symcols=0, cond=1, growth=1, tune="t122" if st else "t212"))
+                    if not cplx and not q: cs.append(xcase(2, 0b1101, storage=st, trans=tr, equil=eq, symcols=2, cond=1, growth=1)); cs.append(xcase(2, 0b1011, storage=st, trans=tr, symcols=1, cond=1))
+        for pat in (C.all_patterns(2, 2) if not cplx else [15, 7]): cs.append(xcase(2, pat, growth=1, umode=0 if cplx else 1, symcols=-1 if not cplx else 0))      # singular and nonsingular growth, symbolic
+        if not cplx:
+            for pat in (511, C.band(3, 1, 1), 0b011011011, 0b111000111): cs.append(xcase(3, pat, growth=1, symcols=4, tune="t212"))
+        if not q and not cplx:
+            for pat in C.all_patterns(2, 2): cs.append(xcase(2, pat, cond=1, growth=1)); cs.append(xcase(2, pat, cond=1, storage=1, trans=2, symcols=1))
+        run_phase(chk, "gscon+growth via gssvx/" + prec, H + "h_gssvx.c", list(dict.fromkeys(cs)), ["C12."], prec=prec, budget_s=200 if q else 1500, validate_samples=0,
+                  bounds="n<=3; NC/NR x NOTRANS/TRANS x Equil; concrete generic A (3 shapes) and symbolic 2x2; growth factor incl. singular factorizations of all 2x2 patterns", qtimeout_ms=5000 if q else 60000, env=CPLX_ENV if cplx else None,
+                  key_extra=lambda c: {"storage": str(c[2]), "trans": str(c[16]), "hist": str(c[15]), "struct_singular": str(int(C.structural_rank(c[0], c[0], int(c[1], 16)) < c[0]))})
+
+
+REGISTRY = {"C12": check_C12, "C11": check_C11, "C09": check_C09, "C19": check_C19, "C20": check_C20, "C07": check_C07, "C14": check_C14, "C10": check_C10, "C08": check_C08, "C18": check_C18, "C05": check_C05, "C06": check_C06, "C01": check_C01, "C02": check_C02, "C03": check_C03, "C04": check_C04}
 
 
 def run(pid, tier):
